@@ -115,7 +115,8 @@ def step(h, tier):
 # ---------------------------------------------------------------------------------------------------------------------
 def shards(tier):
     from mc.props import c18
-    return [s for s in c18.shards(tier) if s.get('kind') == 'lf' and s['mode'] == 'distinct'] + [{'kind': 'many-copies'}, {'kind': 'reidentify'}, {'kind': 'kinds-across-sets'}, {'kind': 'caller-lists'}]
+    return [s for s in c18.shards(tier) if s.get('kind') == 'lf' and s['mode'] == 'distinct'] + [{'kind': 'many-copies'}, {'kind': 'reidentify'}, {'kind': 'kinds-across-sets'}, {'kind': 'caller-lists'},
+                                                                                              {'kind': 'origin-numbering'}]
 
 
 def cases(shard, tier):
@@ -149,6 +150,18 @@ def cases(shard, tier):
         for bad in ('creation_time', 'well_id', 'name'):
             for ref in (None, 3):
                 yield {'refused_first_origin': bad, 'retry_ref': ref}
+        return
+    if shard.get('kind') == 'origin-numbering':
+        # every sequence of 1..3 (thorough: 4) add_origin calls, each with the reference left to the library (None, 0) or
+        # requested (1, 2, 5; a reference that is taken must be refused), with equally named zones before the first
+        # origin (one of them already carrying the reference of an origin to come) and after the last one (one per origin)
+        import itertools
+        for n in range(1, 4 if tier == 'quick' else 5):
+            for refs in itertools.product((None, 0, 1, 2, 5), repeat=n):
+                final = origin_refs_of(refs)
+                yield {'origin_numbering': list(refs), 'pre': None}
+                for r in sorted({x for x in final if x}):
+                    yield {'origin_numbering': list(refs), 'pre': r}
         return
     if shard.get('kind') == 'reidentify':
         # the identity (origin reference) of 1..2 objects is changed between two writes of the same file object:
@@ -208,6 +221,51 @@ def caller_list_spec(case):
         else:
             ops.append(S.op_add(kind, h, f'REFERRER-{step}', **extra))
             ops.append({'op': 'set', 'h': h, 'attr': kw, 'part': 'value', 'value': shared})
+    return {'sul': {'max_record_length': 8192}, 'ops': ops, 'write': {}}
+
+
+def origin_refs_of(refs):
+    """The documented numbering: a requested reference is taken as it is (refused when taken already; 0 / None mean
+    'choose'), otherwise the number of origins so far, counted up until it is free.  Refused calls give None."""
+    used, out = [], []
+    for r in refs:
+        if r:
+            if r in used:
+                out.append(None)
+                continue
+            new = r
+        else:
+            new = len(used)
+            while new in used:
+                new += 1
+        used.append(new)
+        out.append(new)
+    return out
+
+
+def origin_numbering_spec(case):
+    refs = case['origin_numbering']
+    final = origin_refs_of(refs)
+    ops = [S.op_lf()]
+    zs = []
+    if case['pre'] is not None:
+        ops.append(S.op_add('zone', 'ZP0', 'SAME'))
+        ops.append(S.op_add('zone', 'ZP1', 'SAME', origin_reference=case['pre']))
+        zs += ['ZP0', 'ZP1']
+    for i, (r, f) in enumerate(zip(refs, final)):
+        o = S.op_origin(f'O{i}', f'ORIGIN-{i}', **({} if r is None else {'origin_reference': r}))
+        if f is None:
+            o['expect'] = 'raise'
+        ops.append(o)
+    for i, f in enumerate(final):
+        if f:
+            ops.append(S.op_add('zone', f'ZA{i}', 'SAME', origin_reference=f))
+            zs.append(f'ZA{i}')
+    ops.append(S.op_add('zone', 'ZL', 'SAME'))
+    zs.append('ZL')
+    ops += [S.op_add('channel', 'C', 'CHAN', data=S.arr_spec('uint8', [2], [1, 2])),
+            S.op_add('frame', 'F', 'FRAME', channels=[{'$ref': 'C'}]),
+            S.op_add('splice', 'SP', 'SPLICE', zones=[{'$ref': z} for z in zs], output_channel={'$ref': 'C'})]
     return {'sul': {'max_record_length': 8192}, 'ops': ops, 'write': {}}
 
 
@@ -360,6 +418,9 @@ def run_case(case):
     if 'refused_first_origin' in case:
         sp = refused_origin_spec(case)
         brief, fam = case, 'refused-first-origin'
+    elif 'origin_numbering' in case:
+        sp = origin_numbering_spec(case)
+        brief, fam = case, 'origin-numbering'
     elif 'caller_list' in case:
         sp = caller_list_spec(case)
         brief, fam = case, 'caller-list'
